@@ -26,7 +26,11 @@ def main():
     for p in props:
         pid = p["id"]
         if pid in t.CHECKS:
-            c = t.CHECKS[pid]
+            c = dict(t.CHECKS[pid])
+            extra = getattr(t, "ADDED", {}).get(pid)
+            if extra:
+                c["technique"] = c["technique"] + extra[0]
+                c["text"] = c["text"] + extra[1]
             checks.append({
                 "property_id": pid,
                 "quick_cmd": f"./check {pid} --tier quick",
